@@ -606,7 +606,7 @@ func ruleBatchOrder(w *core.World, r *core.Report, c *senderCtx, txn bool) {
 	}
 	paths, bad := 0, ""
 	var badPos token.Pos
-	okEnum := core.EnumPathsN(once.Blocks[0], 0, 400000, 2, func(p *core.Path) {
+	okEnum := core.EnumPathsN(once.Blocks[0], 0, 400000, core.Unroll, func(p *core.Path) {
 		v, known := p.Eval(inTxn)
 		if !known || v != txn {
 			return
